@@ -615,7 +615,9 @@ static int do_replay(const char *path, uint64_t seed)
     json b      = json::parse(line);
     auto &steps = b["steps"];
     g_clock_regressed = false;
-    World w(seed * 1000003ULL + static_cast<uint64_t>(idx) * 7919ULL + 17);
+    // the concretisation seed of a behaviour depends on its "id" only (so a single one can be re-run)
+    uint64_t id = b.contains("id") ? b["id"].get<uint64_t>() : static_cast<uint64_t>(idx);
+    World w(seed * 1000003ULL + id * 7919ULL + 17);
     json out = json::array();
     for (auto &s : steps)
     {
@@ -653,6 +655,7 @@ static int do_replay(const char *path, uint64_t seed)
     }
     json res;
     res["beh"]      = idx;
+    res["id"]       = id;
     res["steps"]    = out;
     res["clock_ok"] = !g_clock_regressed;
     std::cout << res.dump() << "\n";
